@@ -12,7 +12,7 @@
 (*       | [k|->"btset",of] | [k|->"heap",of] | [k|->"range",of] | [k|->"rangei",of]       *)
 (*       | [k|->"nz",p] | [k|->"dur"] | [k|->"bits",store,order] | [k|->"adt",name,args]   *)
 (*       | [k|->"assoc",param,name] | [k|->"phantom",of]                                   *)
-(*  def  = [name, mod, kind ("struct"|"enum"), params: Seq([name,skipped]),                *)
+(*  def  = [name, ident (last path segment), mod, kind ("struct"|"enum"), params: Seq([name,skipped]),                *)
 (*          fields: Seq([name,ty,compact,docs]), variants: Seq([name,index,fields,docs]), docs] *)
 (*  program = [defs: Seq(def), cfgs: Seq([name, assoc: Seq([name, ty])])]                  *)
 EXTENDS Registry
@@ -211,9 +211,9 @@ RegN(P, st, e0) ==
              rp == RegParams(st0, 1, <<>>)
          IN IF d.kind = "struct"
             THEN LET rf == RegFields(P, rp.st, d.fields, env, <<>>) IN
-                 Done(rf.st, Entry(id, d.mod \o <<d.name>>, rp.params, [k |-> "comp", fields |-> rf.fields], d.docs))
+                 Done(rf.st, Entry(id, d.mod \o <<d.ident>>, rp.params, [k |-> "comp", fields |-> rf.fields], d.docs))
             ELSE LET rv == RegVariants(P, rp.st, d.variants, env, <<>>) IN
-                 Done(rv.st, Entry(id, d.mod \o <<d.name>>, rp.params, [k |-> "var", variants |-> rv.variants], d.docs))
+                 Done(rv.st, Entry(id, d.mod \o <<d.ident>>, rp.params, [k |-> "var", variants |-> rv.variants], d.docs))
 
 (* Register a list of closed root expressions into one registry. *)
 RECURSIVE RegisterRoots(_, _, _, _)
@@ -229,9 +229,11 @@ CField(name, ty) == [name |-> name, ty |-> ty, compact |-> TRUE, docs |-> <<>>]
 Param(n) == [name |-> n, skipped |-> FALSE]
 Skipped(n) == [name |-> n, skipped |-> TRUE]
 Struct(name, mod, params, fields) ==
-  [name |-> name, mod |-> mod, kind |-> "struct", params |-> params, fields |-> fields, variants |-> <<>>, docs |-> <<>>]
+  [name |-> name, ident |-> name, mod |-> mod, kind |-> "struct", params |-> params, fields |-> fields, variants |-> <<>>, docs |-> <<>>]
 Enum(name, mod, params, variants) ==
-  [name |-> name, mod |-> mod, kind |-> "enum", params |-> params, fields |-> <<>>, variants |-> variants, docs |-> <<>>]
+  [name |-> name, ident |-> name, mod |-> mod, kind |-> "enum", params |-> params, fields |-> <<>>, variants |-> variants, docs |-> <<>>]
+\* a second definition registered under the path of another one ("two versions of one crate")
+Versioned(d, ident) == [d EXCEPT !.ident = ident]
 Variant(name, index, fields) == [name |-> name, index |-> index, fields |-> fields, docs |-> <<>>]
 Program(defs, cfgs) == [defs |-> defs, cfgs |-> cfgs]
 ==================================================================================
